@@ -110,6 +110,11 @@ func init() {
 		g.callSeq(grp, dis, "MultiNodeConsolidation.ComputeCommands", "multiComputeCalls", []string{"firstNConsolidationOption", "Validate"})
 		g.callSeq(grp, dis, "SingleNodeConsolidation.ComputeCommands", "singleComputeCalls", []string{"computeConsolidation", "Validate"})
 		g.callSeq(grp, dis, "NewCandidate", "newCandidateCalls", []string{"HasAny", "ValidateNodeDisruptable", "ValidatePodsDisruptable"})
+
+		// the life cycle of the in-memory deletion mark: which commands CompleteCommand un-marks, and that the mark
+		// survives NodeClaim/Node updates of the cluster state
+		g.c05CompleteGuard(grp, dis)
+		g.callSeq(grp, dis, "Queue.Reconcile", "queueReconcileCalls", []string{"waitOrTerminate", "CompleteCommand"})
 	})
 }
 
@@ -280,6 +285,72 @@ func (g *gen) c05Marker(group, pkgPath, typ, field, marker, lean string) {
 		}
 	}
 	g.errf("%s.%s.%s: marker +%s not found", pkgPath, typ, field, marker)
+}
+
+// c05CompleteGuard looks at the call of `cluster.UnmarkForDeletion` inside `Queue.CompleteCommand` and emits the
+// condition under which it runs (the conditions of all enclosing `if` statements, outermost first; "else(…)" for an
+// else branch; "" = unconditional) and whether the candidates of a SUCCEEDED command are un-marked. A succeeded
+// command has deleted its candidates' NodeClaims in the API, but the cluster state only learns of the
+// deletionTimestamp when the informer delivers it: until then the in-memory mark is the only thing that makes the
+// node count as "being deleted" for the budgets. The model follows this fact; `fact_completeGuard` pins it.
+func (g *gen) c05CompleteGuard(group, pkgPath string) {
+	_, fd := g.findFunc(pkgPath, "Queue.CompleteCommand")
+	emit := func(unmarksSucceeded bool, guard string, pos token.Pos, note string) {
+		fmt.Fprintf(g.out(group), "/-- the guard of `cluster.UnmarkForDeletion(candidates)` in `Queue.CompleteCommand` (%s)%s;\n    `completeUnmarksSucceeded`: are the candidates of a command that SUCCEEDED un-marked too? -/\ndef completeUnmarkGuard : String := %s\ndef completeUnmarksSucceeded : Bool := %v\n\n", g.pos(pos), note, leanStr(guard), unmarksSucceeded)
+	}
+	if fd == nil {
+		g.errf("%s.Queue.CompleteCommand: function not found", pkgPath)
+		emit(true, "?", token.NoPos, " — NOT FOUND (FACT-ERROR reported)")
+		return
+	}
+	var stack []ast.Node
+	var guards []string
+	found := false
+	var at token.Pos
+	ast.Inspect(fd.Body, func(n ast.Node) bool {
+		if n == nil {
+			stack = stack[:len(stack)-1]
+			return true
+		}
+		if ce, ok := n.(*ast.CallExpr); ok && !found && strings.HasSuffix(exprString(ce.Fun), "UnmarkForDeletion") {
+			found, at = true, ce.Pos()
+			for i, a := range stack {
+				is, ok := a.(*ast.IfStmt)
+				if !ok || i+1 >= len(stack) {
+					continue
+				}
+				switch stack[i+1] {
+				case ast.Node(is.Body):
+					guards = append(guards, types.ExprString(is.Cond))
+				case is.Else:
+					guards = append(guards, "else("+types.ExprString(is.Cond)+")")
+				}
+			}
+			// the last stack entry's relation to the call itself
+			if len(stack) > 0 {
+				if is, ok := stack[len(stack)-1].(*ast.IfStmt); ok && is.Cond == ast.Expr(ce) {
+					guards = append(guards, "in-condition")
+				}
+			}
+		}
+		stack = append(stack, n)
+		return true
+	})
+	if !found {
+		g.errf("%s.Queue.CompleteCommand: no call of UnmarkForDeletion", pkgPath)
+		emit(false, "absent", fd.Pos(), " — no such call (FACT-ERROR reported)")
+		return
+	}
+	guard := strings.Join(guards, " && ")
+	switch guard {
+	case "!cmd.Succeeded":
+		emit(false, guard, at, "")
+	case "":
+		emit(true, guard, at, " — unconditional")
+	default:
+		g.errf("%s.Queue.CompleteCommand: unknown guard `%s` around UnmarkForDeletion", pkgPath, guard)
+		emit(true, guard, at, " — unknown guard (FACT-ERROR reported)")
+	}
 }
 
 // c05ReasonsGuard looks at `if <guard> || lo.Contains(budget.Reasons, reason)` in GetAllowedDisruptionsByReason and
